@@ -62,6 +62,11 @@ partial def loop (h : IO.FS.Stream) (seen : Std.HashSet UInt64) (a : Acc) : IO A
       | some f =>
         match f j { (a.bumpKind k) with pendingNt := none } with
         | .ok a' =>
+          -- C20: a recovered panic of the real handler in ANY harness is a crash of the daemon on that input
+          let a' := match jStr j "panic" with
+            | .ok p => if p != "" && k != "simrun" then a'.violationSig s!"C20:panic-in-handler:{k}" s!"{p.take 160} on {(line.take 1500)}" else a'
+            | .error _ => a'
+
           match a'.pendingNt with
           | none => loop h seen a'
           | some nt =>
